@@ -134,6 +134,9 @@ def run(ctx):
                         seqs.append([(f, fn), (k, n), (k, n)])
                         seqs.append([(k, 0x800), (f, fn), (k, n), (k, 0x20)])
                         seqs.append([(k, 0x800), (k, 1), (k, 1), (f, fn), (k, n)])
+                    # the cursor arrives exactly on the foreign page, then an empty request
+                    seqs.append([(f, fn), (k, 0x1000), (k, 0x1000), (k, 0), (k, 0x10)])
+                    seqs.append([(f, fn), (k, 1), (k, 1), (k, 0), (k, 0)])
             for _ in range(60 if q else 600):
                 seq = [rng.choice([(k, n) for k in fam for n in SIZES + [0x3000]]) for _ in range(rng.randrange(2, 7))]
                 seq.insert(rng.randrange(0, len(seq)), (f, rng.choice([1, 0x1000, 0x2000])))
